@@ -173,3 +173,56 @@ HARNESSES = [
     encodes=['carbon.cache:TimeSortedStrategy (MIN_TIMESTAMP_LAG filter)', 'carbon.cache:_MetricCache.drain_metric'],
     assumptions=_ASSUME + ['clock reading and MIN_TIMESTAMP_LAG are unbounded symbolic ints; the clock does not advance within the harness']),
 ]
+
+
+# ---- interleavings ---------------------------------------------------------------------------------------------------
+from vp_lib import racelab as R  # noqa: E402
+
+
+def _race_setup(b0, b1, b2, b3, mi, ti, v, p1, n, p2):
+  stores = [(L.METRICS[mi], L.STAMPS[ti], v)]
+  plan = [('W', p1), ('R', n)] + ([('W', p2)] if p2 else [])
+  return [b0, b1, b2, b3], stores, plan
+
+
+def C17_race(strat: int, b0: bool, b1: bool, b2: bool, b3: bool, pv: int, mi: int, ti: int, v: int, p1: int, n: int, p2: int, nd: int) -> bool:
+  """
+  pre: 0 <= strat <= 6
+  pre: 0 <= mi <= 2 and 0 <= ti <= 2
+  pre: 0 <= p1 <= 30 and 0 <= n <= 12 and 0 <= p2 <= 8
+  pre: 1 <= nd <= 2
+  post: __return__
+  """
+  bits, stores, plan = _race_setup(b0, b1, b2, b3, mi, ti, v, p1, n, p2)
+  out = R.symbolic_run(strat, bits, pv, stores, nd, plan)
+  if [t for t in out.trace if t[0] == 'R'] and [t for t in out.trace if t[0] == 'W']:
+    cover('interleaved')
+  if out.errors:
+    raise AssertionError('%s thread failed: %r' % (out.errors[0][0], out.errors[0][1]))
+  for (m, batch) in out.drains:
+    if m is not None and not batch:
+      raise AssertionError('a drain returned %r without datapoints' % (m,))
+  return True
+
+
+def replay_race(strat, b0, b1, b2, b3, pv, mi, ti, v, p1, n, p2, nd):
+  bits, stores, plan = _race_setup(b0, b1, b2, b3, mi, ti, v, p1, n, p2)
+  sym = R.symbolic_run(strat, bits, pv, stores, nd, plan)
+  out = R.real_run(strat, bits, pv, stores, nd, sym.trace)
+  if out.replay_problems and not out.errors:
+    raise RuntimeError('schedule could not be enforced on real threads: %r' % (out.replay_problems,))
+  if out.errors:
+    return False
+  return not [1 for (m, batch) in out.drains if m is not None and not batch]
+
+
+_RS = [('s%d_%s_m%d_d%d' % (i, n or 'none', m, d), 'strat == %d and mi == %d and nd == %d' % (i, m, d)) for i, n in enumerate(L.STRATEGY_NAMES) for m in range(3) for d in (1, 2)]
+_RQ = [('s%d_%s_m%d' % (i, L.STRATEGY_NAMES[i] or 'none', m), 'strat == %d and mi == %d and nd == 1' % (i, m)) for i in (2, 4, 6) for m in (0, 2)]
+HARNESSES.append(
+  H('C17_race', quick=dict(timeout=280, shards=_RQ, extra_pre=['p2 == 0', 'b1 == False and b3 == False', 'ti != 1']),
+    thorough=dict(timeout=1500, shards=_RS, extra_pre=['b3 == False']),
+    covers=['interleaved'], replay='replay_race', twin_pre=['strat == 2 and mi == 0'],
+    encodes=['carbon.cache:_MetricCache.store / drain_metric / pop', 'carbon.cache:*Strategy.choose_item / store (statement-level coroutines)'],
+    assumptions=['schedules: writer runs p1 statements, receiver (one store) n statements or until blocked, [thorough: writer p2 more], then both to completion; '
+                 'coroutines regenerated from the current source of carbon.cache, cooperative lock with atomic try-acquire; '
+                 'counterexamples replayed on real OS threads with the real lock'] + _ASSUME))
